@@ -372,7 +372,7 @@ def build_fixed_world(rt, g):
 
 
 def corpus_script():
-    """One minimal request per known mechanism (seeded changes C41-a/b/c, the repaired defect 9a727df), each through a read cap,
+    """One minimal request per known mechanism (seeded changes C41-a/b/c/d, the repaired defect 9a727df), each through a read cap,
     through a path below a read-only link and with the read-only link as last path element; then the same shapes with full
     authority (these succeed).  ("id", request, expected class) or ("get", root, auth, path, kind)."""
     R, A, B, OTHER, D, F, L, M, M2, I = range(10)
@@ -393,6 +393,14 @@ def corpus_script():
         q("C41-c/post-upload-name-lit-on-ro-link", "target-ro", R, "w", ["n1"], "POST", "upload", name="n3", fname="n3", fmt="mdmf"),
         q("C41-c/put-over-chk-below-ro-link", "through-ro", R, "w", ["n1", "n2"], "PUT", "", fmt="sdmf"),
         q("C41-c/put-over-chk-in-immutable-dir", "root-ro", I, "w", ["n1"], "PUT", "", fmt="sdmf"),
+        # --- C41-d: immutable (CHK, > 55 bytes) upload with replace=false / only-files: dirnode.add_file must refuse before uploading
+        q("C41-d/put-new-chk-replace-false", "root-ro", A, "r", ["n8"], "PUT", "", repl="no"),
+        q("C41-d/put-new-chk-only-files", "root-ro", A, "r", ["n8"], "PUT", "", repl="only"),
+        q("C41-d/put-over-chk-only-files", "root-ro", A, "r", ["n2"], "PUT", "", repl="only"),
+        q("C41-d/post-upload-new-replace-false", "root-ro", A, "r", [], "POST", "upload", name="n8", fname="n8", repl="no"),
+        q("C41-d/put-new-chk-replace-false-below-ro-link", "through-ro", R, "w", ["n1", "n8"], "PUT", "", repl="no"),
+        q("C41-d/post-upload-new-replace-false-on-ro-link", "target-ro", R, "w", ["n1"], "POST", "upload", name="n8", fname="n8", repl="no"),
+        q("C41-d/put-new-chk-only-files-in-immutable-dir", "root-ro", I, "w", ["n8"], "PUT", "", repl="only"),
         # --- C41-b: relink out of a read-only directory into a different writeable one (by cap, by cap/path)
         q("C41-b/relink-file-to-cap", "root-ro", A, "r", [], "POST", "relink", name="n2", to="n7", todir=[OTHER, "w", []]),
         q("C41-b/relink-dir-to-path", "root-ro", A, "r", [], "POST", "relink", name="n1", to="n7", todir=[OTHER, "w", ["n1"]]),
